@@ -27,7 +27,7 @@ REQUIRED = [
     "judged:sketch-core-shell", "judged:sketch-grid-levels", "judged:shape-core-shell", "judged:shape-grid-levels",
     "judged:file:delete-by-address", "judged:file:chop-location", "judged:file:round-delete",
     "nontrivial:nx-ny-tiers-pairwise-different", "placed:post-transform", "reached:core-op-judged",
-    "reached:shell-op-judged", "judged:deleted-before-the-entity-was-added", "judged:three-level-sketch-core-shell", "judged:operation-deleted-twice",
+    "reached:shell-op-judged", "judged:deleted-before-the-entity-was-added", "judged:three-level-sketch-core-shell", "judged:operation-deleted-twice", "judged:addresses-after-assemble-and-backport", "judged:second-mesh-with-the-same-entity",
     "judged:addresses-of-a-mirrored-entity",
 ]
 RULE = (
@@ -185,6 +185,7 @@ def _gen_write(rng, base, con, dims):
     w["extra"] = rng.choice([None, None, "before", "after"])
     w["delete_first"] = rng.random() < 0.3  # the addressed operations are deleted before the entity is added (assembly is lazy)
     w["delete_twice"] = rng.random() < 0.3
+    w["backport_first"] = rng.random() < 0.25 and not w["delete_first"]
     if ndel:
         w["mode"] = "all"
     else:
@@ -532,6 +533,17 @@ def run_stack(ctx, case, cb):
     if not w.get("delete_first"):
         for (k, l, n) in deleted:
             mesh.delete(grid[k][l][n])
+    if w.get("backport_first"):
+        # history: the assembled mesh is back-ported before anything is deleted (what optimizers and smoothers do at their
+        # end): every operation must get ITS block's corners back
+        try:
+            mesh.assemble()
+            mesh.backport()
+            mesh.clear()
+            ctx.count("judged:addresses-after-assemble-and-backport")
+        except Exception as err:  # noqa: BLE001
+            ctx.violation(f"backport-of-untouched-mesh-raised:{tag}:{type(err).__name__}", f"{tag}: {err!r}")
+            return
     if w.get("delete_twice") and deleted:
         # overlapping selections (two slices that share a corner operation) delete an operation a second time
         k, l, n = sorted(deleted)[0]
@@ -581,6 +593,22 @@ def run_stack(ctx, case, cb):
             f"{tag} nx={base.get('nx')} ny={base.get('ny')} tiers={nt}: deleted grid addresses (tier,row,col) {sorted(deleted)}; the file "
             f"lacks blocks at {missing}, still has blocks at deleted locations {extra}, duplicates {twice} ({len(parsed['blocks'])} hex entries)")
         return
+    if deleted and len(lat.index) <= 12:
+        # a second Mesh that holds the same entity knows nothing of the first one's deletions
+        mesh2 = cb.Mesh()
+        mesh2.add(entity)
+        path2 = util.tmpfile("c19b")
+        got2, err2 = util.write_outcome(mesh2, path2, nblocks=len(lat.index))
+        ctx.count("judged:second-mesh-with-the-same-entity")
+        if got2 == "success":
+            n2 = len(foamdict.read_blockmesh(path2)["blocks"])
+            util.rm(path2)
+            if n2 != len(lat.index):
+                ctx.violation(f"delete-leaks-into-another-mesh:{tag}", f"{tag}: {sorted(deleted)} deleted in one Mesh; a second Mesh holding the "
+                              f"same entity writes {n2} blocks instead of {len(lat.index)}")
+                return
+        else:
+            util.rm(path2)
     for c, want in expect.items():
         blk = parsed["blocks"][hits[c][0]]
         hv = verts[blk["idx"]]
